@@ -28,8 +28,8 @@ theorem sound_core : Gen.S5K3W.sem.soundCoreB = true := by decide +kernel
 
 /-- C01 for this logic: a closed tableau reached by any legal derivation has no countermodel. -/
 theorem c01_valid_sound (arg : Argument) (t : Tableau)
-    (hd : Deriv Gen.S5K3W.sem.soundPart.noQuantPart (trunk Gen.S5K3W.sem arg) t) (hclosed : t.allClosed = true)
+    (hd : Deriv Gen.S5K3W.sem.soundPart (trunk Gen.S5K3W.sem arg) t) (hclosed : t.allClosed = true)
     (M : Struct) (hM : M.Interp Gen.S5K3W.sem) (e : Env M.D) (w0 : M.W) : ¬ Countermodel Gen.S5K3W.sem M e w0 arg :=
-  Props.C01.C01_valid_sound_partial Gen.S5K3W.sem sound_core arg t hd hclosed M hM e w0
+  Props.C01.C01_valid_sound Gen.S5K3W.sem sound_core arg t hd hclosed M hM e w0
 
 end Ptx.Gen.Obl.S5K3W
